@@ -30,12 +30,19 @@ def cb_rule(rng, rid, res, inert=False):
 
 
 def flow_rule(rng, rid, res, inert=False):
-    if inert or rng.random() < 0.15:
-        return [rid, res, 0, 0, BIG + rng.choice([0, 1, 5]), 0, 0, 0, 0, 0, 0]
-    thr = rng.choice([1, 2, 3, 5, 10, 100, 1000])
-    maxq = rng.choice([0, 0, 100, 500, 2000])
-    stativ = rng.choice([0, 0, 1000, 2000, 500])
-    return [rid, res, 0, 1, thr, 0, 0, maxq, 0, 0, stativ]
+    if inert or rng.random() < 0.12:
+        return [rid, res, 0, 0, BIG + rng.choice([0, 1, 5]), 0, 0, 0, 0, 0, rng.choice([0, 0, 1000, 2000, 3000])]
+    k = rng.random()
+    if k < 0.5:      # throttling
+        thr = rng.choice([1, 2, 3, 5, 10, 100, 1000])
+        maxq = rng.choice([0, 0, 100, 500, 2000])
+        stativ = rng.choice([0, 0, 1000, 2000, 500])
+        return [rid, res, 0, 1, thr, 0, 0, maxq, 0, 0, stativ]
+    stativ = rng.choice([0, 0, 0, 1000, 2000, 500, 3000, 3000, 700, 20000])
+    if k < 0.75:     # direct + reject
+        return [rid, res, 0, 0, rng.choice([0, 1, 2, 3, 5, 10]), 0, 0, 0, 0, 0, stativ]
+    # warm-up + reject; cold factor 0 = left to default
+    return [rid, res, 1, 0, rng.choice([2, 3, 5, 10, 20, 100]), 0, 0, 0, rng.choice([1, 2, 5, 10]), rng.choice([0, 2, 3, 3, 5]), stativ]
 
 
 def enc(rules):
@@ -173,11 +180,36 @@ def gen_steal(rng, cid):
     return Case(cid, A + ["phase B"], tags=("steal-slice",))
 
 
+def gen_warm(rng, cid):
+    """fixed slice inside the regions of `warmup-reload-resets` (cold factor left to default, identical reload) and of the
+    flow form of `reuse-steals-controller` (a never-refusing reject rule listed before the warm-up rule)"""
+    g = G(rng)
+    now = T0 + rng.randint(0, 10 ** 6)
+    thr, period = rng.choice([(10, 2), (10, 2), (20, 1), (5, 3)])
+    steal = rng.random() < 0.4
+    w = [g.rid(), 1, 1, 0, thr, 0, 0, 0, period, 3 if steal and rng.random() < 0.7 else 0, rng.choice([0, 0, 1000])]
+    A = [f"t {now}", f"flow.load {enc([w])}"]
+    per = rng.choice([thr // 2 + 1, thr, thr + 2])
+    nsec = rng.randint(3, 7)
+    at = rng.randint(2, nsec)
+    for sec in range(1, nsec + 1):
+        if sec == at:
+            new = [g.inert_variant("flow", w), w] if steal else [w]
+            if not steal and rng.random() < 0.3:
+                new = new + [g.mk("flow", 2)]
+            A.append(f"flow.reload {enc(new)}" if rng.random() < 0.6 else f"flow.reloadres 1 {enc([r for r in new if r[1] == 1])}")
+        for k in range(per):
+            A += [f"t {now + sec * 1000 + k * (900 // per)}", "e 1 0"]
+    return Case(cid, A + ["phase B"], tags=("warm-slice",))
+
+
 def gen(ctx, n):
     out = []
     for i in range(n):
         if i % 25 == 7:
             out.append(gen_steal(ctx.rng, f"k{ctx.seed}-{i}"))
+        elif i % 25 == 16:
+            out.append(gen_warm(ctx.rng, f"w{ctx.seed}-{i}"))
         else:
             out.append(gen_case(ctx.rng, f"g{ctx.seed}-{i}"))
     return out
